@@ -30,7 +30,8 @@ ASSUMPTIONS = ["round 1 may normalise arbitrarily (or reject the interface: coun
 
 
 def streams(ctx):
-    return [("wide", ctx.scale(220, 4000)), ("legal", ctx.scale(120, 2500)), ("announced", ctx.scale(150, 2500))]
+    return [("wide", ctx.scale(220, 4000)), ("legal", ctx.scale(120, 2500)), ("announced", ctx.scale(150, 2500)),
+            ("undocumented", ctx.scale(100, 1500))]
 
 
 def gen_case(ctx, stream, idx):
@@ -40,6 +41,14 @@ def gen_case(ctx, stream, idx):
         ir = irgen.rand_ir(r, nparams=r.randint(0, 5), suffix_defaults=r.random() < 0.5,
                            default_kinds=tuple(k for k in irgen.DEFAULT_KINDS if k not in ("code", "strdot")),
                            doc_kinds=("plain", "trigger", "trigger", "multiline", "stop"), with_return=r.random() < 0.5)
+    elif stream == "undocumented":
+        # a summary line only: parameters without description (their types live in annotations / columns), no
+        # documented return - the emitted docstring has no parameter / return marker at all
+        ir = irgen.rand_ir(r, nparams=r.randint(0, 4), type_kinds=("int", "float", "str", "bool", "optional"),
+                           default_kinds=("absent", "int", "float", "str", "bool"), doc_kinds=("none",),
+                           with_return=False, all_defaults=r.random() < 0.7)
+        if r.random() < 0.2:
+            ir["doc"] = ""
     elif stream == "announced":
         # hand-written descriptions that announce their default in prose (any spelling) and carry no default key yet:
         # round 1 extracts the default, rounds 2..4 must not re-announce it
